@@ -17,9 +17,9 @@ use std::rc::Rc;
 
 type E<'a> = extra::Err<Cheap<SimpleSpan<usize>>>;
 
-pub const N_TYPES: u8 = 7;
+pub const N_TYPES: u8 = 8;
 pub const N_SHAPES: u8 = 4;
-pub const TYPE_NAMES: [&str; 7] = ["()", "unit struct", "[u64; 32]", "String", "Box<u32>", "Rc<u8>", "(u8, u64)"];
+pub const TYPE_NAMES: [&str; 8] = ["()", "unit struct", "[u64; 32]", "String", "Box<u32>", "Rc<u8>", "(u8, u64)", "[u64; 520] (4160 bytes: larger than a page)"];
 
 #[derive(Clone, PartialEq, Debug)]
 struct Unit;
@@ -93,7 +93,8 @@ pub fn check(ty: u8, syms: &[u8], sh: u8) -> Option<(String, String)> {
         3 => run_all::<String>(|s| format!("tok{}", s), syms, sh),
         4 => run_all::<Box<u32>>(|s| Box::new(s as u32), syms, sh),
         5 => run_all::<Rc<u8>>(|s| Rc::new(s), syms, sh),
-        _ => run_all::<(u8, u64)>(|s| (s, s as u64 * 3), syms, sh),
+        6 => run_all::<(u8, u64)>(|s| (s, s as u64 * 3), syms, sh),
+        _ => run_all::<[u64; 520]>(|s| [s as u64; 520], syms, sh),
     };
     let reference = res[0].1.clone();
     for (kind, got) in &res[1..] {
